@@ -18,6 +18,7 @@ package verifharness
 import (
 	"context"
 	"encoding/json"
+	"errors"
 	"fmt"
 	"io"
 	"os"
@@ -35,6 +36,7 @@ import (
 	"github.com/avos-io/goat/gen/goatorepo"
 	"github.com/avos-io/goat/internal"
 	"github.com/avos-io/goat/internal/verifhook"
+	"golang.org/x/sync/errgroup"
 	"google.golang.org/grpc"
 	"google.golang.org/grpc/codes"
 	"google.golang.org/grpc/metadata"
@@ -61,6 +63,7 @@ type Step struct {
 	B    int64    `json:"b,omitempty"`
 	D    int64    `json:"d,omitempty"`    // open/unary: deadline in ms (0 = none); tick: ms
 	Gate bool     `json:"gate,omitempty"` // unary: the server handler waits for "hu"
+	Ctx  string   `json:"ctxk,omitempty"` // open/unary: the kind of caller context (see newCtx)
 	H    *HOp     `json:"h,omitempty"`
 	Env  *EnvSpec `json:"env,omitempty"` // peer / cli: scripted envelope (Call = index of the call whose id it carries)
 	M    string   `json:"m,omitempty"`   // cli: method of the scripted envelope
@@ -84,6 +87,8 @@ type cwHandler struct {
 	returned bool
 }
 
+type cwCtxKey struct{}
+
 type cwRig struct {
 	t    *testing.T
 	mode string
@@ -92,9 +97,10 @@ type cwRig struct {
 	srv  *goat.Server
 
 	mu          sync.Mutex
-	sendWFailed map[int]bool // calls with an operation that failed with a transport write error (see classFor)
-	events      []string     // client API events since the last snapshot
-	hevents     []string     // handler events since the last snapshot
+	sendWFailed map[int]bool         // calls with an operation that failed with a transport write error (see classFor)
+	keepAlive   []context.CancelFunc // cancel functions of inner contexts (released when the scenario is over)
+	events      []string             // client API events since the last snapshot
+	hevents     []string             // handler events since the last snapshot
 	pend        map[string]bool
 	ctxs        []context.Context
 	cancels     []context.CancelFunc
@@ -295,14 +301,99 @@ func (r *cwRig) unaryHandler(ctx context.Context, req []byte) ([]byte, bool, err
 
 // ---------------------------------------------------------------- one step on the real code
 
-func (r *cwRig) newCtx(c int, d int64, withCall bool) context.Context {
-	ctx, cancel := context.WithCancel(context.Background())
+// errCallerCause / errCallerDeadlineCause: the causes recorded by the cause-carrying caller contexts. No operation of
+// the client may report them in place of the Canceled / DeadlineExceeded status.
+var errCallerCause = errors.New("caller gave up: batch superseded")
+var errCallerDeadlineCause = errors.New("caller budget exhausted")
+
+// newCtx: the context of call c, built with the real constructors of package context; kind selects which:
+//
+//	"" | "cancel"   WithCancel (+ WithDeadline when d > 0)
+//	"timeout"       WithCancel + WithTimeout(d)
+//	"cause"         WithCancelCause, cancelled with errCallerCause (+ WithDeadlineCause when d > 0)
+//	"timeoutcause"  WithCancelCause + WithTimeoutCause(d, errCallerDeadlineCause)
+//	"parent"        a WithCancel child (with a value) of the context that is cancelled / carries the deadline
+//	"errgroup"      the context of an errgroup.Group: cancelled when a goroutine of the group returns an error
+//	"grandparent"   a child of a child of a cause-carrying context
+func (r *cwRig) newCtx(c int, d int64, withCall bool, kind string) context.Context {
+	var ctx context.Context
+	var cancel context.CancelFunc
 	var dl time.Time
+	dur := time.Duration(d) * time.Millisecond
 	if d > 0 {
-		dl = time.Now().Add(time.Duration(d) * time.Millisecond)
-		var c2 context.CancelFunc
-		ctx, c2 = context.WithDeadline(ctx, dl)
-		_ = c2
+		dl = time.Now().Add(dur)
+	}
+	keep := func(f context.CancelFunc) { r.keepAlive = append(r.keepAlive, f) }
+	switch kind {
+	case "", "cancel":
+		ctx, cancel = context.WithCancel(context.Background())
+		if d > 0 {
+			var c2 context.CancelFunc
+			ctx, c2 = context.WithDeadline(ctx, dl)
+			keep(c2)
+		}
+	case "timeout":
+		ctx, cancel = context.WithCancel(context.Background())
+		if d > 0 {
+			var c2 context.CancelFunc
+			ctx, c2 = context.WithTimeout(ctx, dur)
+			keep(c2)
+		}
+	case "cause", "grandparent":
+		c1, cc := context.WithCancelCause(context.Background())
+		ctx, cancel = c1, func() { cc(errCallerCause) }
+		if d > 0 {
+			var c2 context.CancelFunc
+			ctx, c2 = context.WithDeadlineCause(ctx, dl, errCallerDeadlineCause)
+			keep(c2)
+		}
+		if kind == "grandparent" {
+			mid, c2 := context.WithCancel(ctx)
+			keep(c2)
+			var c3 context.CancelFunc
+			ctx, c3 = context.WithCancel(context.WithValue(mid, cwCtxKey{}, c))
+			keep(c3)
+		}
+	case "timeoutcause":
+		c1, cc := context.WithCancelCause(context.Background())
+		ctx, cancel = c1, func() { cc(errCallerCause) }
+		if d > 0 {
+			var c2 context.CancelFunc
+			ctx, c2 = context.WithTimeoutCause(ctx, dur, errCallerDeadlineCause)
+			keep(c2)
+		}
+	case "parent":
+		var parent context.Context
+		parent, cancel = context.WithCancel(context.Background())
+		if d > 0 {
+			var c2 context.CancelFunc
+			parent, c2 = context.WithDeadline(parent, dl)
+			keep(c2)
+		}
+		var c3 context.CancelFunc
+		ctx, c3 = context.WithCancel(context.WithValue(parent, cwCtxKey{}, c))
+		keep(c3)
+	case "errgroup":
+		base := context.Background()
+		if d > 0 {
+			var c2 context.CancelFunc
+			base, c2 = context.WithDeadline(base, dl)
+			keep(c2)
+		}
+		g, gctx := errgroup.WithContext(base)
+		trigger := make(chan struct{})
+		g.Go(func() error {
+			select {
+			case <-trigger:
+				return errCallerCause
+			case <-gctx.Done():
+				return gctx.Err()
+			}
+		})
+		var once sync.Once
+		ctx, cancel = gctx, func() { once.Do(func() { close(trigger) }) }
+	default:
+		panic("cw: unknown context kind " + kind)
 	}
 	if withCall {
 		ctx = metadata.AppendToOutgoingContext(ctx, "call", strconv.Itoa(c))
@@ -320,7 +411,7 @@ func (r *cwRig) do(a Step) []string {
 	case "unary":
 		c := r.nCalls
 		r.nCalls++
-		ctx := r.newCtx(c, a.D, false)
+		ctx := r.newCtx(c, a.D, false, a.Ctx)
 		r.strs = append(r.strs, nil)
 		r.kinds = append(r.kinds, "unary")
 		r.payloads = append(r.payloads, a.B)
@@ -346,7 +437,7 @@ func (r *cwRig) do(a Step) []string {
 	case "open":
 		c := r.nCalls
 		r.nCalls++
-		ctx := r.newCtx(c, a.D, true)
+		ctx := r.newCtx(c, a.D, true, a.Ctx)
 		r.strs = append(r.strs, nil)
 		r.kinds = append(r.kinds, a.Kind)
 		r.payloads = append(r.payloads, 0)
@@ -898,6 +989,8 @@ func stepTag(a Step) string {
 		return "KHU"
 	case "srvfail":
 		return "KSrvFail"
+	case "sblock":
+		return "KSBlock"
 	}
 	return "KUser"
 }
@@ -1076,6 +1169,9 @@ func runCwScenario(t *testing.T, idx int, kind string, sc cwScenario, em *Emitte
 		rig.mu.Unlock()
 		verifhook.SetYield(nil)
 		for _, c := range rig.cancels {
+			c()
+		}
+		for _, c := range rig.keepAlive {
 			c()
 		}
 		rig.mu.Lock()
